@@ -1,10 +1,10 @@
-(* C01 - executable tests of the nbx theorems (C01/NbxSched.v) in the semantics with polls MPI/SemPoll.v, P <= 4: a pseudo-random
+(* C01 - executable tests of the nbx and superset theorems (C01/NbxSched.v, SuperSched.v) in the semantics with polls MPI/SemPoll.v, P <= 4: a pseudo-random
    scheduler over SemPoll.enabled_p / exec_step_p is run by vm_compute for several seeds; every run must stop (no enabled choice) in a
    final state with the transposed lists (sorted) or a permutation of them (unsorted) as results, no message left in the channels and
    every barrier posted.  The number of steps varies with the schedule (idle polls).  Made BEFORE the proofs. *)
 From Coq Require Import ZArith Lia List Bool.
 From ScV Require Import Base.CInt MPI.Prog MPI.Sem MPI.SemPoll Gen.Consts Gen.NotifyC01 C01.NotifyProgs C01.NotifyProgProofs
-     C01.SchedTests C01.NbxSched.
+     C01.SchedTests C01.NbxSched C01.SuperSched.
 Import ListNotations.
 Local Open Scope Z_scope.
 
@@ -57,23 +57,19 @@ Example nbx_step_counts_vary :
   map (fun seed => fst (fst (rnd_run_p 4 nbx_poll nbx_stags 4000 seed (nbx_sys 4 R4 false nopay true 600) 0))) [0; 1; 2] = [43; 57; 45]%nat.
 Proof. vm_compute. reflexivity. Qed.
 
-(* ---- superset in the same semantics (NO THEOREM yet: the statement that remains to be proved, tested here) ---------------------------------
-   Rank r runs super_core fuel (R r) None (extra r) (supers r) sorted ..; the callback contract: supers r = the ranks that list r ++ the
-   ranks whose extra receivers contain r.  Polling tags: SUPER_TRUE and SUPER_EXTRA; no synchronous sends, no barrier. *)
-Definition super_poll (t : Z) : bool := (t =? c_SC_TAG_NOTIFY_SUPER_TRUE) || (t =? c_SC_TAG_NOTIFY_SUPER_EXTRA).
-Definition xsenders P (extra : Z -> list Z) (r : Z) : list Z := filter (fun q => memz r (extra q)) (ranks P).
-Definition super_prog (fuel : nat) P (R extra : Z -> list Z) (sorted : bool) (r : Z) : prog :=
-  if (0 <=? r) && (r <? P) then super_core fuel (R r) None (extra r) (transpose P R r ++ xsenders P extra r) sorted (fun s g => Ret (result s g)) else Ret [].
-Definition super_sys fuel P R extra sorted : pst := mkpst (super_prog fuel P R extra sorted) (fun _ _ _ => []) (fun _ => false).
-Definition X4 (f : Z) : list Z := if f =? 0 then [0] else if f =? 2 then [0; 3] else if f =? 3 then [0] else [].   (* disjoint from R4 *)
+(* ---- superset (C01/SuperSched.v) ------------------------------------------------------------------------------------------------------------
+   The callback: extra receivers X4 (disjoint from R4 here, not required); announced super senders = the ranks that list r ++ the ranks
+   whose extra receivers contain r (the contract). *)
+Definition X4 (f : Z) : list Z := if f =? 0 then [0] else if f =? 2 then [0; 3] else if f =? 3 then [0] else [].
+Definition supers_of P (R extra : Z -> list Z) (r : Z) : list Z := transpose P R r ++ filter (fun q => memz r (extra q)) (ranks P).
 
-Definition super_good (P : Z) (R extra : Z -> list Z) (sorted : bool) (seed : Z) : bool :=
-  let '(n, s, stopped) := rnd_run_p P super_poll [] 4000 seed (super_sys 600 P R extra sorted) 0 in
-  stopped && (if sorted then eqo (outs_p s (ranks P)) (expp P R false nopay)
-              else forallb (fun r => match ppr s r with Ret o => perm_of o (transpose P R r) | _ => false end) (ranks P))
+Definition super_good (P : Z) (R extra : Z -> list Z) (hp : bool) (pay : Z -> Z -> payload) (sorted : bool) (seed : Z) : bool :=
+  let '(n, s, stopped) := rnd_run_p P super_poll super_stags 4000 seed (super_sys P R hp pay extra (supers_of P R extra) sorted 600) 0 in
+  stopped && (if sorted then eqo (outs_p s (ranks P)) (expp P R hp pay)
+              else forallb (fun r => match ppr s r with Ret o => perm_of (firstn (S (length (transpose P R r))) o) (transpose P R r) | _ => false end) (ranks P))
           && match left_p s (ranks P) [c_SC_TAG_NOTIFY_SUPER_TRUE; c_SC_TAG_NOTIFY_SUPER_EXTRA] with [] => true | _ => false end.
 
 Example super_random_schedules :
-  forallb (super_good 4 R4 X4 true) (ranks 12) = true /\ forallb (super_good 4 R4 X4 false) (ranks 12) = true /\
-  forallb (super_good 3 R3 (fun _ => []) true) (ranks 6) = true.
+  forallb (super_good 4 R4 X4 false nopay true) (ranks 12) = true /\ forallb (super_good 4 R4 X4 false nopay false) (ranks 12) = true /\
+  forallb (super_good 3 R3 (fun _ => []) false nopay true) (ranks 6) = true /\ forallb (super_good 4 R4 X4 true pay7 true) (ranks 6) = true.
 Proof. vm_compute. repeat split; reflexivity. Qed.
